@@ -134,7 +134,7 @@ fn make_obj(shape: &str) -> InMemDicomObject {
         DataElement::new(tags::PATIENT_ID, VR::LO, "ID1"),
         DataElement::new(tags::ROWS, VR::US, PrimitiveValue::from(2u16)),
     ]);
-    if shape == "nested" || shape == "pixel" {
+    if shape == "nested" || shape == "pixel" || shape == "large" {
         let item = InMemDicomObject::from_element_iter([
             DataElement::new(tags::CODE_VALUE, VR::SH, "C1"),
             DataElement::new(tags::CODE_MEANING, VR::LO, "meaning"),
@@ -150,8 +150,9 @@ fn make_obj(shape: &str) -> InMemDicomObject {
             DataSetSequence::from(vec![item, inner, InMemDicomObject::new_empty()]),
         ));
     }
-    if shape == "pixel" {
-        let px: Vec<u8> = (0..600u32).map(|i| (i * 7 % 253) as u8).collect();
+    if shape == "pixel" || shape == "large" {
+        let n = if shape == "large" { 70_000u32 } else { 600u32 };
+        let px: Vec<u8> = (0..n).map(|i| (i * 7 % 253) as u8).collect();
         obj.put(DataElement::new(tags::PIXEL_DATA, VR::OW, PrimitiveValue::from(px)));
         obj.put(DataElement::new(Tag(0x0009, 0x0010), VR::LO, "PRIVATE CREATOR"));
         obj.put(DataElement::new(Tag(0x0009, 0x1001), VR::UN, PrimitiveValue::from(vec![1u8, 2, 3, 4])));
@@ -447,8 +448,17 @@ fn main() {
         } else {
             let mut rng = Rng::new(seed_from_env() ^ (total as u64) << 8);
             let mut v: Vec<usize> = vec![0, 1, total.saturating_sub(1), total, total / 2];
-            for _ in 0..24 {
+            for _ in 0..200 {
                 v.push(rng.below(total as u64 + 1) as usize);
+            }
+            // buffer boundaries of the usual 8 KiB writers and the tail of the output
+            for k in 1..=(total / 8192) {
+                for d in [-1i64, 0, 1] {
+                    v.push((k as i64 * 8192 + d).clamp(0, total as i64) as usize);
+                }
+            }
+            for d in 0..40 {
+                v.push(total.saturating_sub(d));
             }
             v.sort();
             v.dedup();
